@@ -1696,7 +1696,8 @@ def _handle_add_fields_stage(in_collection, unused_database, options):
                 continue
             parts = field.split('.')
             for subfield in parts[:-1]:
-                out_doc[subfield] = out_doc.get(subfield, {})
+                # A copy: every expression of the stage reads the input document as it came in.
+                out_doc[subfield] = copy.copy(out_doc.get(subfield, {}))
                 if not isinstance(out_doc[subfield], dict):
                     out_doc[subfield] = {}
                 out_doc = out_doc[subfield]
